@@ -1,7 +1,10 @@
 // Package pos7: seventh-round constructs (zw.go: executed-only translation in `do` notation) whose translation translate_test.go pins.
 package pos7
 
-import "sync/atomic"
+import (
+	"sort"
+	"sync/atomic"
+)
 
 type Key struct {
 	A int8
@@ -145,4 +148,72 @@ func (e *Eng) BadWindow(b *Box, ply int) ([]Key, int64) {
 	best := e.stack[ply].line[:0]
 	best = append(best, Key{})
 	return best, 0
+}
+
+// ---- zwsort.go: a scratch buffer with tracked nil-ness, an alias struct, a range loop, a call oracle
+
+type Book struct {
+	seen map[Key]int
+}
+
+type scratch struct {
+	vals struct {
+		slice []int
+		alloc [8]int
+	}
+}
+
+type byVal struct {
+	ks []Key
+	vs []int
+}
+
+func (s byVal) Len() int           { return len(s.ks) }
+func (s byVal) Less(i, j int) bool { return s.vs[i] > s.vs[j] }
+func (s byVal) Swap(i, j int) {
+	s.ks[i], s.ks[j] = s.ks[j], s.ks[i]
+	s.vs[i], s.vs[j] = s.vs[j], s.vs[i]
+}
+
+type Sorter struct {
+	e  *Book
+	f  *scratch
+	ks []Key
+}
+
+func (x *Sorter) Rank() {
+	vs := x.f.vals.slice
+	if vs == nil {
+		vs = x.f.vals.alloc[:]
+	}
+	if len(vs) < len(x.ks) {
+		vs = make([]int, len(x.ks))
+	}
+	s := byVal{x.ks, vs}
+	for i, k := range s.ks {
+		s.vs[i] = x.e.seen[k]
+	}
+	sort.Sort(s)
+}
+
+// refused: the aliased local is assigned as a whole after the struct was built
+func (x *Sorter) BadAlias() {
+	vs := x.f.vals.slice
+	s := byVal{x.ks, vs}
+	vs = make([]int, 3)
+	sort.Sort(s)
+}
+
+// refused: the body assigns the slice ranged over
+func (x *Sorter) BadRange() {
+	for i, k := range x.ks {
+		x.ks[i] = k
+	}
+}
+
+// refused: the nil-ness of the assigned value is not known
+func (x *Sorter) BadNil() {
+	vs := x.f.vals.slice
+	vs = x.f.vals.slice
+	_ = vs
 }
